@@ -173,9 +173,9 @@ type writers struct {
 
 func startWriters(cl *Cluster, r *vk.Rand, n int, pause time.Duration) *writers {
 	w := &writers{stop: make(chan struct{})}
-	secs := cl.Size / 512
+	blocks := cl.Size / 4096
 	for g := 0; g < n; g++ {
-		lo, hi := secs*int64(g)/int64(n), secs*int64(g+1)/int64(n)
+		lo, hi := blocks*int64(g)/int64(n)*8, blocks*int64(g+1)/int64(n)*8
 		rr := vk.NewRand(r.U64())
 		w.wg.Add(1)
 		go func() {
@@ -251,10 +251,14 @@ func (s *Scen) compareAtPromotion(x *RepProc, snaps map[string][]uint32) {
 			diag += "\n" + cl.dumpSector(msg)
 		}
 		cls := "other-replica"
+		f11 := cl.rmwPattern(x, msg)
 		if strings.Contains(diag, fmt.Sprintf("[replica %d stored image (reopened copy): matches", x.Idx)) {
 			cls = "promoted-replica-serves-stale-data-its-files-are-right"
 		} else if strings.Contains(diag, fmt.Sprintf("[replica %d stored image (reopened copy): sector", x.Idx)) {
 			cls = "promoted-replica-files-lack-data"
+			if f11 {
+				cls = "promoted-replica-head-block-mixes-a-newer-sub-block-write-with-stale-sectors"
+			}
 		}
 		s.Fail([]string{"C07", "C04"}, "promotion:served-data-differs:"+cls, fmt.Sprintf("after replica %d was promoted: %s;%s", x.Idx, msg, diag))
 		return
@@ -362,7 +366,10 @@ func RunRebuild(s *Scen, r *vk.Rand, a, b int, bin, base string, cycles int) {
 	}
 	s.Cl = cl
 	defer cl.Stop()
-	cl.AlignedOnly = os.Getenv("VERIF_DEV_ALIGNED") == "1"
+	// two thirds of the cases keep foreground writes during rebuilds 4 KiB-aligned: sub-block writes to a
+	// rebuilding replica hit known finding F11 (DESIGN.md 6) and would end the case at its first promotion
+	alignedRebuild := s.Case%3 != 2 || os.Getenv("VERIF_DEV_ALIGNED") == "1"
+	s.Cfg["rebuild_writes_4k_aligned"] = alignedRebuild
 	types.RPCReadTimeout, types.RPCWriteTimeout = 4*time.Second, 4*time.Second
 	rpc.SetRPCTimeout()
 	for _, p := range cl.Reps {
@@ -399,6 +406,7 @@ func RunRebuild(s *Scen, r *vk.Rand, a, b int, bin, base string, cycles int) {
 		x := cl.Reps[r.Intn(rf)]
 		nw := r.Range(1, 3)
 		pause := []time.Duration{0, 200 * time.Microsecond, 3 * time.Millisecond}[r.Intn(3)]
+		cl.AlignedOnly = alignedRebuild
 		ws := startWriters(cl, r, nw, pause)
 		time.Sleep(time.Duration(r.Range(20, 300)) * time.Millisecond)
 		how := []string{"kill", "kill", "stop"}[r.Intn(3)]
@@ -517,6 +525,7 @@ func RunRebuild(s *Scen, r *vk.Rand, a, b int, bin, base string, cycles int) {
 		}
 		s.compareAtPromotion(x, snaps)
 		ws.Stop()
+		cl.AlignedOnly = false
 		if s.Dead {
 			return
 		}
@@ -634,4 +643,55 @@ func (cl *Cluster) dumpSector(msg string) string {
 		}
 	}
 	return out
+}
+
+
+// rmwPattern recognises the shape of known finding F11 at the sector named in
+// msg: in the promoted replica's head the 4 KiB block holds the stale sector
+// next to a sector written by a newer write than the one that is missing, i.e.
+// a sub-block write was read-modify-written from the not yet synchronised chain.
+func (cl *Cluster) rmwPattern(x *RepProc, msg string) bool {
+	var sector int64
+	var holds, expected uint32
+	i := strings.Index(msg, "sector ")
+	if i < 0 {
+		return false
+	}
+	if n, _ := fmt.Sscanf(msg[i:], "sector %d holds write#%d, expected acknowledged write#%d", &sector, &holds, &expected); n != 3 {
+		return false
+	}
+	ri, err := GetRep(x.IP)
+	if err != nil || len(ri.Chain) == 0 {
+		return false
+	}
+	f, err := os.Open(filepath.Join(x.Dir, ri.Chain[0]))
+	if err != nil {
+		return false
+	}
+	defer f.Close()
+	blk := sector / 8
+	if pos, _ := syscall.Seek(int(f.Fd()), blk*4096, 3); pos != blk*4096 {
+		return false // the head has no extent there: not this pattern
+	}
+	buf := make([]byte, 4096)
+	if _, err := f.ReadAt(buf, blk*4096); err != nil {
+		return false
+	}
+	stale, newer := false, false
+	for k := int64(0); k < 8; k++ {
+		d := reng.Describe(buf[k*512:])
+		var w, sec uint32
+		if d == "zeros" {
+			d = fmt.Sprintf("write#0(sector %d)", blk*8+k)
+		}
+		if n, _ := fmt.Sscanf(d, "write#%d(sector %d)", &w, &sec); n == 2 {
+			if blk*8+k == sector && w == holds {
+				stale = true
+			}
+			if blk*8+k != sector && w > expected {
+				newer = true
+			}
+		}
+	}
+	return stale && newer
 }
